@@ -116,6 +116,25 @@ impl Corpus {
 
 /// Draw a condition inside the operating envelope of C01 and apply it; returns its description.
 /// `wild` enables fperiod / rate overrides and envelope corners.
+/// The engine's OBSERVABLE settings: every getter of the condition (bit patterns of the floats), incl. the interpolation weights.
+/// (Not the `Debug` text: a lazily filled private cache may legitimately change during a call - found by the false-alarm survey, DESIGN 10.7.)
+pub fn settings_snapshot(engine: &Engine) -> String {
+    let c = &engine.condition;
+    let ns = engine.voices.global_metadata().num_streams;
+    let bits = |x: f64| format!("{:016x}", x.to_bits());
+    let mut s = format!("rate={} fperiod={} alpha={} beta={} vol={} speed={} ht={} align={}", c.get_sampling_frequency(), c.get_fperiod(),
+                        bits(c.get_alpha()), bits(c.get_beta()), bits(c.get_volume()), bits(c.get_speed()), bits(c.get_additional_half_tone()),
+                        c.get_phoneme_alignment_flag());
+    let iw = c.get_interporation_weight();
+    let ws = |w: &[f64]| w.iter().map(|x| bits(*x)).collect::<Vec<_>>().join(",");
+    s.push_str(&format!(" iwd=[{}]", ws(iw.get_duration())));
+    for i in 0..ns {
+        s.push_str(&format!(" thr{}={} gvw{}={} iwp{}=[{}] iwg{}=[{}]", i, bits(c.get_msd_threshold(i)), i, bits(c.get_gv_weight(i)), i,
+                            ws(iw.get_parameter(i)), i, ws(iw.get_gv(i))));
+    }
+    s
+}
+
 pub fn random_condition(engine: &mut Engine, rng: &mut Rng, wild: bool) -> Value {
     let nstream = engine.voices.global_metadata().num_streams;
     let c = &mut engine.condition;
